@@ -179,3 +179,194 @@ func VerifHarness_C11_O1() {
 	}
 	verifReach("end")
 }
+
+// C11/O3 (= C16/O7) — refused insertions in the middle of a history on a
+// Badger-backed store, then a restart.  Before one chosen event of a
+// gossip-shaped history, ONE attempt is made that the hashgraph (or the store)
+// must refuse: an event whose other-parent is unknown (a child arriving before
+// its other-parent), an event skipping an index, a fork (self-parent is not the
+// creator's last event), an event with an invalid signature, an event of an
+// unknown creator, or a direct Store.SetEvent that skips an index.  The history
+// then goes on.  A refused attempt leaves no trace: the database's topological
+// and per-creator listings hold exactly the accepted events, once, in order;
+// the refused event is not readable; after close / reopen a fresh hashgraph
+// bootstraps to the same blocks and the same known events and accepts the rest
+// of the history.
+func VerifHarness_C11_O3() {
+	n, steps := 3, 24
+	if verifTier() > 0 {
+		steps = 33
+	}
+	ref := verifNewNet(n, 1000)
+	dag := verifGossipDAG(ref, n, steps, -1)
+	for i, e := range dag {
+		if err := ref.insertAndRun(verifFreshEvent(ref, e, dag, i)); err != nil {
+			panic(fmt.Sprintf("reference insert %d: %v", i, err))
+		}
+	}
+	dir := verifTempDir("c11o3")
+	cache := []int{12, 1000}[verifChoice("cacheSize", 2)]
+	bst, err := NewBadgerStore(cache, dir, false, nil)
+	if err != nil {
+		panic(err)
+	}
+	run := verifNewNetOnStore(n, bst)
+	positions := []int{4, 9, 16}
+	if verifTier() > 0 {
+		positions = []int{3, 4, 5, 9, 13, 16, 22, 27}
+	}
+	at := positions[verifChoice("attemptBeforeEvent", len(positions))]
+	kind := verifChoice("refusedAttempt", 6)
+	stopAt := len(dag) - 6 // the rest is inserted after the restart
+	var refused *Event
+	for i := 0; i < stopAt; i++ {
+		e := dag[i]
+		if i == at {
+			c := e.creator
+			sp := ""
+			if e.sp >= 0 {
+				sp = dag[e.sp].ev.Hex()
+			}
+			op := ""
+			if e.op >= 0 {
+				op = dag[e.op].ev.Hex()
+			}
+			var aerr error
+			switch kind {
+			case 0: // the other-parent is not known (yet)
+				refused = run.mkEvent(c, sp, "0X00000000000000000000000000000000000000000000000000000000DEADBEEF", e.index, [][]byte{[]byte("refused")})
+				aerr = run.insert(refused)
+			case 1: // skips an index
+				refused = run.mkEvent(c, sp, op, e.index+1, [][]byte{[]byte("refused")})
+				aerr = run.insert(refused)
+			case 2: // fork: built on the creator's first event
+				first := ""
+				for _, x := range dag {
+					if x.creator == c && x.index == 0 {
+						first = x.ev.Hex()
+					}
+				}
+				refused = run.mkEvent(c, first, op, 1, [][]byte{[]byte("refused")})
+				aerr = run.insert(refused)
+			case 3: // invalid signature
+				refused = NewEvent([][]byte{[]byte("refused")}, nil, nil, []string{sp, op}, run.pubs[c], e.index)
+				bh, _ := refused.Body.Hash()
+				refused.Signature = verifSignature(run.keys[c], bh, false)
+				aerr = run.insert(refused)
+			case 4: // unknown creator
+				k := verifKey(7)
+				refused = NewEvent([][]byte{[]byte("refused")}, nil, nil, []string{"", op}, keysFromPublic(k), 0)
+				bh, _ := refused.Body.Hash()
+				refused.Signature = verifSignature(k, bh, true)
+				aerr = run.insert(refused)
+			default: // straight to the store, skipping an index
+				refused = run.mkEvent(c, sp, op, e.index+2, [][]byte{[]byte("refused")})
+				aerr = bst.SetEvent(refused)
+			}
+			if aerr == nil {
+				// admission itself is C07's subject; here the attempt must have been refused
+				return
+			}
+			verifReach("an-attempt-was-refused")
+		}
+		if err := run.insertAndRun(verifFreshEvent(run, e, dag, i)); err != nil {
+			verifAssert("history-goes-on-after-a-refused-attempt", false)
+			return
+		}
+	}
+	if refused == nil {
+		return
+	}
+	before := run.blocks
+	check := func(st *BadgerStore, tag string) {
+		_, e1 := st.GetEvent(refused.Hex())
+		_, e2 := st.dbGetEvent(refused.Hex())
+		verifAssert("refused-event-not-readable-"+tag, e1 != nil && e2 != nil)
+		tev, err := st.dbTopologicalEvents(0, len(dag)+5)
+		ok := err == nil && len(tev) == stopAt
+		if ok {
+			for i := range tev {
+				if tev[i].Hex() != dag[i].ev.Hex() {
+					ok = false
+				}
+			}
+		}
+		verifAssert("topological-listing-is-exactly-the-accepted-events-in-order-"+tag, ok)
+		for c := 0; c < n; c++ {
+			var want []string
+			for i, e := range dag {
+				if e.creator == c && i < stopAt {
+					want = append(want, e.ev.Hex())
+				}
+			}
+			got, err := st.dbParticipantEvents(ref.peers[c].PubKeyString(), -1)
+			okList := err == nil && len(got) == len(want)
+			if okList {
+				for i := range got {
+					if got[i] != want[i] {
+						okList = false
+					}
+				}
+			}
+			verifAssert("participant-listing-is-exactly-the-accepted-events-in-order-"+tag, okList)
+		}
+	}
+	check(bst, "before-restart")
+	if err := bst.Close(); err != nil {
+		panic(err)
+	}
+	bst2, err := NewBadgerStore(cache, dir, false, nil)
+	verifAssert("reopen-succeeds", err == nil)
+	if err != nil {
+		return
+	}
+	check(bst2, "after-reopen")
+	re := &verifNet{}
+	re.h = NewHashgraph(bst2, func(b *Block) error {
+		re.blocks = append(re.blocks, b)
+		return nil
+	}, nil)
+	berr := re.h.Bootstrap()
+	verifAssert("bootstrap-succeeds", berr == nil)
+	if berr != nil {
+		return
+	}
+	verifAssert("no-delivered-block-lost", len(re.blocks) >= len(before))
+	for i := range before {
+		if i < len(re.blocks) {
+			verifAssert("re-delivered-block-identical", verifSameBlock(re.blocks[i], before[i]))
+		}
+	}
+	known := bst2.KnownEvents()
+	for c := 0; c < n; c++ {
+		last := -1
+		for i, e := range dag {
+			if e.creator == c && i < stopAt {
+				last = e.index
+			}
+		}
+		verifAssert("known-heights-are-those-of-the-accepted-events", known[ref.peers[c].ID()] == last)
+	}
+	re.keys, re.pubs = ref.keys, ref.pubs
+	for i := stopAt; i < len(dag); i++ {
+		if err := re.h.InsertEventAndRunConsensus(verifFreshEvent(re, dag[i], dag, i), true); err != nil {
+			verifAssert("resumes-gossip-after-restart", false)
+			return
+		}
+	}
+	verifAssert("same-chain-as-a-node-that-saw-no-refused-attempt", len(re.blocks) == len(ref.blocks))
+	for i := range re.blocks {
+		if i < len(ref.blocks) {
+			verifAssert("same-chain-as-a-node-that-saw-no-refused-attempt", verifSameBlock(re.blocks[i], ref.blocks[i]))
+		}
+	}
+	bst2.Close()
+	if len(before) >= 1 {
+		verifReach("blocks-were-delivered-before-the-restart")
+	}
+	verifReach("end")
+}
+
+// C16/O7 — the same obligation, for its store clauses (listings complete,
+// ordered, duplicate-free; a refused write leaves no trace).
+func VerifHarness_C16_O7() { VerifHarness_C11_O3() }
